@@ -674,7 +674,8 @@ impl Env {
         if muts.is_empty() {
             return false;
         }
-        let (label, m) = muts[rng.gen_range(0..muts.len())].clone();
+        let surplus: Vec<usize> = (0..muts.len()).filter(|k| muts[*k].0 == "tp.surplus-tx").collect();
+        let (label, m) = if !surplus.is_empty() && rng.gen_bool(0.6) { muts[surplus[0]].clone() } else { muts[rng.gen_range(0..muts.len())].clone() };
         let hs: Vec<i64> = req.tx_hashes().into_iter().map(|h| sim.chain.tx_id_of(&h).map(|t| t as i64 + 1).unwrap_or(-1)).collect();
         let args = json!({"p": pname(p), "last": hid(&sim.chain, &req.last_hash()), "hs": hs, "tip": server.tip + 1,
             "onChain": true, "kind": format!("mut:{}", label)});
